@@ -76,6 +76,7 @@ import (
 	"sync/atomic"
 	"testing"
 	"time"
+	"unicode/utf8"
 
 	"github.com/tucats/ego/internal/cli/settings"
 	"github.com/tucats/ego/internal/defs"
@@ -628,7 +629,7 @@ var (
 // maskBody hides the per-request session number and the server instance id
 // in ego's own JSON bodies.
 func maskBody(b []byte) []byte {
-	return idRE.ReplaceAll(sessionRE.ReplaceAll(b, []byte(`"session": N`)), []byte(`"id": "ID"`))
+	return idRE.ReplaceAll(sessionRE.ReplaceAll(b, []byte(`"session": 0`)), []byte(`"id": "ID"`))
 }
 
 type diff struct {
@@ -766,10 +767,12 @@ func ctNorm(vs []string) string {
 
 var securityHeaders = map[string]bool{"X-Frame-Options": true, "X-Content-Type-Options": true, "Referrer-Policy": true, "Content-Security-Policy": true}
 
+const panicSig = "in-process handler panic (router answers 500 internal server error), child mode answers normally"
+
 // compare lists the differences between the in-process answer a and the
 // child answer b, most significant first. Signatures name the relation that
 // fails, not the values.
-func compare(a, b answer) []diff {
+func compare(a, b answer, bodyNote string) []diff {
 	var ds []diff
 	if b.Err != "" {
 		return []diff{{sig: "no response from child mode", obs: b.Err, exp: fmt.Sprintf("status %d", a.Status)}}
@@ -779,7 +782,7 @@ func compare(a, b answer) []diff {
 		// everything else about the two answers follows from whatever made the
 		// statuses differ: report this alone
 		if m, ok := errMsg(a.Body); ok && a.Status == 500 && m == "internal server error" {
-			return []diff{{sig: "in-process handler panic (router answers 500 internal server error), child mode answers normally",
+			return []diff{{sig: panicSig,
 				obs: fmt.Sprintf("child status %d body %s", b.Status, clip(string(bb), 400)), exp: fmt.Sprintf("in-process status %d body %s", a.Status, clip(string(ab), 400))}}
 		}
 		extra := ""
@@ -817,10 +820,12 @@ func compare(a, b answer) []diff {
 		}
 		var sig string
 		switch {
+		case k == "Content-Type" && len(vb) >= 2 && vb[len(vb)-1] == defs.ErrorMediaType && len(va) <= 1:
+			sig = "child mode error answer carries several Content-Type lines (the service's or application/json, then the error type)"
 		case k == "Content-Type" && len(vb) >= 2:
-			sig = "child mode sends Content-Type " + fmt.Sprint(len(vb)) + " times: " + strings.Join(vb, "+")
-		case k == "Content-Type" && len(va) == 1 && va[0] == "application/json" && len(vb) <= 1:
-			sig = "Content-Type application/json of the in-process answer is " + ctNorm(vb) + " in child mode"
+			sig = "child mode sends Content-Type " + fmt.Sprint(len(vb)) + " times: " + strings.Join(vb, "+") + " in=" + ctNorm(va)
+		case k == "Content-Type" && len(va) == 1 && va[0] == "application/json" && (len(vb) == 0 || len(vb) == 1 && sniffed[vb[0]]):
+			sig = "Content-Type application/json of the in-process answer is not set in child mode"
 		case k == "Content-Type":
 			sig = "header Content-Type in=" + ctNorm(va) + " child=" + ctNorm(vb)
 		case len(va) >= 2 && len(vb) == 1 && vb[0] == strings.Join(va, ", "):
@@ -849,7 +854,12 @@ func compare(a, b answer) []diff {
 		ds = append(ds, diff{sig: sig, obs: fmt.Sprintf("child: %s: %q", k, vb), exp: fmt.Sprintf("in-process: %s: %q", k, va)})
 	}
 	if !bodySame {
-		ds = append(ds, diff{sig: "body " + bodyDiff(ab, bb), obs: "child body: " + clip(string(bb), 600), exp: "in-process body: " + clip(string(ab), 600)})
+		what := bodyDiff(ab, bb)
+		if strings.Contains(what, "body.") || strings.HasPrefix(what, "bytes") || what == "json field body" {
+			// the echo of the request body differs: say what kind of body it was
+			what += bodyNote
+		}
+		ds = append(ds, diff{sig: "body " + what, obs: "child body: " + clip(string(bb), 600), exp: "in-process body: " + clip(string(ab), 600)})
 	}
 	return ds
 }
@@ -859,6 +869,45 @@ func clip(s string, n int) string {
 		return s[:n] + "…"
 	}
 	return s
+}
+
+
+// bodyNote classifies the request body for signatures about its echo.
+func bodyNote(b []byte) string {
+	switch {
+	case len(b) == 0:
+		return " [no request body]"
+	case !utf8.Valid(b):
+		return " [request body is not valid UTF-8]"
+	default:
+		return " [UTF-8 request body]"
+	}
+}
+
+// panicSite sends the request once more in-process through srvfix.Do with the
+// router's panic recovery switched off, to learn where a handler panic that
+// the router turned into "500 internal server error" comes from. Best effort
+// (srvfix.Do cannot repeat header lines); "unknown" when it does not panic.
+func (e *env) panicSite(c Case) string {
+	settings.SetDefault(defs.ServerPanicRecoverySetting, "false")
+	defer settings.SetDefault(defs.ServerPanicRecoverySetting, "true")
+	h := map[string]string{}
+	for _, kv := range c.Req.Headers {
+		h[kv.K] = kv.V
+	}
+	switch c.Req.Auth {
+	case "admin-token":
+		h["Authorization"] = "Bearer " + e.adminTok
+	case "user-token":
+		h["Authorization"] = "Bearer " + e.userTok
+	case "admin-basic":
+		h["Authorization"] = srvfix.Basic("admin", "secret0")
+	}
+	r := e.f.Do(srvfix.Request{Method: c.Req.Method, Path: target(c), Header: h, Body: string(c.Req.Body)})
+	if r.Panic == nil {
+		return "unknown"
+	}
+	return srvfix.PanicSite(r.Stack)
 }
 
 // ---------------------------------------------------------------- known findings (to look behind them)
@@ -983,13 +1032,14 @@ func oracle(c Case) vkit.Outcome {
 		}
 		out.Labels = append(out.Labels, "body "+kind)
 	}
-	if ds := compare(a, b); len(ds) > 0 {
+	note := bodyNote(c.Req.Body)
+	if ds := compare(a, b, note); len(ds) > 0 {
 		// the service is not a function of the request in-process: no verdict
 		out.Skip = "in-process answers differ: " + ds[0].sig
 		return out
 	}
 	var all []diff
-	df, dp := compare(a, fa), compare(a, pa)
+	df, dp := compare(a, fa, note), compare(a, pa, note)
 	inP := map[string]bool{}
 	for _, d := range dp {
 		inP[d.sig] = true
@@ -1013,6 +1063,11 @@ func oracle(c Case) vkit.Outcome {
 	if len(all) == 0 {
 		out.Labels = append(out.Labels, "agree")
 		return out
+	}
+	for i := range all {
+		if strings.HasPrefix(all[i].sig, panicSig) {
+			all[i].sig += " at " + e.panicSite(c)
+		}
 	}
 	out.Labels = append(out.Labels, "differ")
 	kn := known()
